@@ -116,6 +116,16 @@ CHECKS = {
         "note": "tolerance 16 eps (1+log2 N) sqrt(N) max|x| at the precision scipy.fft computes in; numpy.fft reference for reads longer than 128 samples",
         "technique": "property-based testing: Hypothesis vs longdouble DFT-definition oracle; generated files for the reader path",
     },
+    "C20": {
+        "text": "Each of the 14 pb.fft names on generated inputs (rank 1..3, float/complex/integer/bool dtypes, negative and permuted axes, n/s shorter and "
+                "longer, every norm) compared with numpy.fft (values) and scipy.fft (shape, dtype) on NumPy arrays and on Dask arrays chunked off the "
+                "transformed axes (lazy via a counting sentinel; chunking on a transformed axis refused); the name table enumerated exhaustively. "
+                "STFT/ISTFT on generated baseband signals (nchan 1..4, every alignment, nperseg odd/even/==len): exact sub-channel labels, per-segment "
+                "DFT data, tones land in the labelled sub-channel, ISTFT restores data/rate/start/labels. Exploration.",
+        "ref": "DESIGN.md section 4 C20",
+        "note": "c2r transforms with a length-1 last axis and no explicit length are excluded (the references disagree among themselves there)",
+        "technique": "property-based testing: differential against numpy.fft/scipy.fft; exact-rational label model for STFT",
+    },
     "C18": {
         "text": "Generated-input search against an independent table of all 7-smooth numbers below 2^64: exhaustive for 0 <= N < 10^6 (10^7 thorough), "
                 "at s-1, s, s+1 and the midpoint for the 7-smooth s < 2^62 (all of them in the thorough tier), Hypothesis integers over [0, 2^62), and "
